@@ -190,6 +190,7 @@ type scenario struct {
 	consistent bool // every handler-what gets the same keys
 	sorted     bool // groups ascending by time slot, rows inside a group sorted in the requested direction
 	wide       bool // tag values over the whole int64 range
+	strTags    bool // group-by tags also carry unmapped string values (stag[j] set, tag[j] = 0)
 	clean      bool // unique keys per answer, non-by tags zero, skey empty unless grouped by it, rows inside their LOD
 }
 
@@ -209,6 +210,27 @@ func (sc *scenario) setWhats(whats []int) {
 }
 
 func tagsStr(t []int64) string { return verifx.List(t) }
+
+// wireTags: the row's tags on the wire and in the model: NT integer values, then the codes of the NT unmapped string
+// values (0 = none) — together with time and the string-top key this is the whole row key (tableRowKey = tsTags)
+func wireTags(r *api.VerifRow) string {
+	t := append([]int64(nil), r.Tags...)
+	for j := 0; j < NT; j++ {
+		c := 0
+		if j < len(r.STags) {
+			c = skeyCode(r.STags[j])
+		}
+		t = append(t, int64(c))
+	}
+	return verifx.List(t)
+}
+
+func stagAt(r *api.VerifRow, j int) string {
+	if j < len(r.STags) {
+		return r.STags[j]
+	}
+	return ""
+}
 
 func markerStr(m api.RowMarker) string {
 	ts := make([]string, len(m.Tags))
@@ -330,11 +352,16 @@ func keyCmp(a, b *api.VerifRow) int {
 			return 1
 		}
 	}
+	for j := 0; j < NT; j++ {
+		if c := cmp3(int64(skeyCode(stagAt(a, j))), int64(skeyCode(stagAt(b, j)))); c != 0 {
+			return c
+		}
+	}
 	return strings.Compare(a.SKey, b.SKey)
 }
 
 func keyStr(r *api.VerifRow) string {
-	return fmt.Sprintf("%d:%s:%d", r.Time, strings.ReplaceAll(tagsStr(r.Tags), ",", "."), skeyCode(r.SKey))
+	return fmt.Sprintf("%d:%s:%d", r.Time, strings.ReplaceAll(wireTags(r), ",", "."), skeyCode(r.SKey))
 }
 
 // ---------------------------------------------------------------- generator
@@ -374,6 +401,7 @@ func genScenario(r *verifx.Rng, h *verifx.H) *scenario {
 	sc.sorted = !r.Chance(1, 7)
 	sc.consistent = !r.Chance(1, 4)
 	sc.wide = r.Chance(1, 4)
+	sc.strTags = r.Chance(1, 3)
 	// whats
 	var ds []promql.DigestWhat
 	if r.Chance(1, 4) {
@@ -450,6 +478,19 @@ func genScenario(r *verifx.Rng, h *verifx.H) *scenario {
 				row := api.VerifRow{Time: l.From + int64(s), Tags: make([]int64, NT)}
 				for _, j := range sc.by {
 					row.Tags[j] = tagVal(r, sc.wide, 4)
+					if sc.strTags {
+						// a group-by tag is mapped (integer), unmapped (integer 0 + string value) or unspecified (0, "")
+						switch r.Pick(2, 3, 1) {
+						case 1:
+							if row.STags == nil {
+								row.STags = make([]string, NT)
+							}
+							row.Tags[j] = 0
+							row.STags[j] = skeys[1+r.Intn(len(skeys)-1)]
+						case 2:
+							row.Tags[j] = 0
+						}
+					}
 				}
 				if sc.bySk {
 					row.SKey = skeys[r.Intn(len(skeys))]
@@ -508,6 +549,7 @@ func genScenario(r *verifx.Rng, h *verifx.H) *scenario {
 						continue
 					}
 					row.Tags = append([]int64(nil), row.Tags...)
+					row.STags = append([]string(nil), row.STags...)
 					for f := 0; f < 6; f++ {
 						row.Fields[f] = float64(r.Intn(50) + 100*q)
 					}
@@ -790,7 +832,7 @@ func runScenario(h *verifx.H, sc *scenario) {
 			opWhats(h, ws, make([]int, len(ws)))
 		}
 	}
-	h.Op("cfg nt=%d by=%s bysk=%d fe=%d lim=%d sel=%s", NT, verifx.List(sc.by), bs, fe, sc.limit, selStr(sc.sel))
+	h.Op("cfg nt=%d by=%s bysk=%d fe=%d lim=%d sel=%s", 2*NT, verifx.List(sc.by), bs, fe, sc.limit, selStr(sc.sel))
 	{
 		fs := make([]int, len(sc.whats))
 		for i, d := range sc.whats {
@@ -814,7 +856,7 @@ func runScenario(h *verifx.H, sc *scenario) {
 			for _, g := range c.groups {
 				h.Op("grp %d %d", q, k)
 				for i := range g {
-					h.Op("row %d %d %d %s %d %s", q, k, g[i].Time, tagsStr(g[i].Tags), skeyCode(g[i].SKey), fieldsStr(g[i].Fields))
+					h.Op("row %d %d %d %s %d %s", q, k, g[i].Time, wireTags(&g[i]), skeyCode(g[i].SKey), fieldsStr(g[i].Fields))
 					nrows++
 				}
 			}
@@ -838,6 +880,9 @@ func runScenario(h *verifx.H, sc *scenario) {
 	}
 	if sc.wide {
 		h.Stat("tags.wide", 1)
+	}
+	if sc.strTags {
+		h.Stat("tags.unmapped-strings", 1)
 	}
 	if sc.from.Time != 0 {
 		h.Stat("marker.from", 1)
@@ -954,7 +999,7 @@ func runScenario(h *verifx.H, sc *scenario) {
 	// canonical order: runs of rows with the same visible sort key are ordered by full key
 	rows := make([]api.VerifRow, len(out))
 	for i := range out {
-		rows[i] = api.VerifRow{Time: out[i].Time, Tags: out[i].Tags, SKey: out[i].SKey}
+		rows[i] = api.VerifRow{Time: out[i].Time, Tags: out[i].Tags, STags: out[i].STags, SKey: out[i].SKey}
 	}
 	idx := make([]int, len(out))
 	for i := range idx {
@@ -975,7 +1020,7 @@ func runScenario(h *verifx.H, sc *scenario) {
 		if out[i].Rest {
 			extra = " rest"
 		}
-		h.Obs("r %d %s %d %s%s", out[i].Time, tagsStr(out[i].Tags), skeyCode(out[i].SKey), dataStr(out[i].Data), extra)
+		h.Obs("r %d %s %d %s%s", out[i].Time, wireTags(&rows[i]), skeyCode(out[i].SKey), dataStr(out[i].Data), extra)
 	}
 	h.Stat("rows.table", int64(len(out)))
 	if more {
